@@ -193,3 +193,26 @@ Proof.
     exists h2. split; [exact R2|]. split; [congruence|]. split; [exact C2|]. split; [exact S2|]. split; [exact T2|].
     intros j g G1 G2. rewrite F2 by assumption. apply F1; intros [_ X]; contradiction.
 Qed.
+
+(* ---- token_split_on_char(t, source, c) when the separator does not occur among the bytes the loop reads
+   (all of the token but its last byte): nothing is allocated and nothing is written *)
+Lemma split_on_char_loop_none n : forall h src c t start pos stop,
+  (forall q, pos <= q -> q + 1 < stop -> nth (N.to_nat (start + q)) src 0 <> c) ->
+  split_on_char_loop n h src c t start pos stop = Some h.
+Proof.
+  induction n as [|k IH]; intros h src c t start pos stop Hno; cbn [split_on_char_loop]; [reflexivity|].
+  destruct (N.ltb_spec (pos + 1) stop) as [Lt|Ge]; [|reflexivity].
+  rewrite (proj2 (N.eqb_neq _ _) (Hno pos (N.le_refl _) Lt)).
+  apply IH. intros q Hq. apply Hno. lia.
+Qed.
+
+Theorem split_on_char_absent_is_identity h src t c start len :
+  t <> 0 -> rd h t Fst = Some start -> rd h t Fln = Some len -> start + len <= Nlen src + 2 ->
+  (forall q, q + 1 < len -> nth (N.to_nat (start + q)) src 0 <> c) ->
+  token_split_on_char h src t c = Some h.
+Proof.
+  intros Zt Hs Hl Hb Hno. unfold token_split_on_char.
+  rewrite (proj2 (N.eqb_neq _ _) Zt), Hs, Hl. cbn [obind].
+  destruct (N.ltb_spec (Nlen src + 2) (start + len)) as [X|_]; [lia|].
+  apply split_on_char_loop_none. intros q _. apply Hno.
+Qed.
